@@ -73,6 +73,15 @@ def run(ctx):
         for lam in (65536, MiB, MiB + 1, 2 * MiB, 5 * MiB):
             jobs.append(job("lam%d" % lam, sample, ["--leaf", str(lam), "--style", "read" if lam % 2 else "writeto",
                                                     "--reads", "light", "--boundary"]))
+    # several leaf sizes in ONE process, in turn (buffer pools, free lists and caches must not leak between store
+    # instances): whole and fractional MiB sizes and small ones, on a sample of the behaviours
+    mixed = os.path.join(ctx.work, "beh_mixed.ndjson")
+    lines = open(beh).read().splitlines()
+    want = 60 if ctx.thorough else 16
+    step = max(1, len(lines) // want)
+    open(mixed, "w").write("\n".join(lines[::step][:want]) + "\n")
+    jobs.append(job("mixed", mixed, ["--leaf-cycle", "%d,%d,%d,%d,64,%d" % (MiB, MiB + 7, 2 * MiB, 2 * MiB + MiB // 2, 3 * MiB - 1),
+                                     "--style", "read", "--reads", "light", "--boundary"]))
     results = vlib.parallel(jobs, max_workers=8)
     tot = vlib.account(ctx, results)
     ctx.notes.update(behaviours_replayed=tot["behaviours"], steps_compared=tot["steps"],
